@@ -280,6 +280,12 @@ func newRaceReports() []raceReport {
 		for len(frames) < 2 {
 			frames = append(frames, "?")
 		}
+		if strings.Contains(blk, ".Verif") {
+			// an access made by one of the harness's own hook functions in /repo (e.g. restoring the
+			// clock after the tasks have ended): the scheduler deliberately gives the race detector
+			// no edges of its own, so the harness's set-up and tear-down look unordered to it
+			continue
+		}
 		sort.Strings(frames[:2])
 		out = append(out, raceReport{frames[0], frames[1]})
 	}
@@ -1470,7 +1476,7 @@ func genLsOps(r *Rand, objIdx int, c *Case, nt int, perTask int) {
 
 func genC20E1(r *Rand, tier, profile string) *Case {
 	var c *Case
-	base := r.Intn(5)
+	base := r.Intn(7)
 	switch base {
 	case 0:
 		c = genC01(r, tier, "")
@@ -1480,8 +1486,11 @@ func genC20E1(r *Rand, tier, profile string) *Case {
 		c = genC11(r, tier, "")
 	case 3:
 		c = genC12(r, tier, "")
-	default:
+	case 4:
 		c = genC07(r, tier, "")
+	default:
+		// inbound publishes of several publishers with injected log and RPC failures
+		c = genC05(r, tier, "")
 	}
 	c.Profile = "e1mix"
 	if c.Knobs == nil {
@@ -1549,7 +1558,7 @@ func init() {
 		Rule: "a case = 2-4 tasks with 1-6 operations each on one shared object (session registry, identifier pool, retained trie, subscription trie, per-session filter list, in-flight table, its timeout list, replicated state) plus the PRNG schedule taken at every statement-level yield; non-trivial when >=2 tasks and >=2 operations; distinct by hash of (operations, schedule)",
 		Real: real, Stub: stub, Assume: assume})
 	register(&Check{ID: "C20", Variant: "e1", Statistical: true, Level: "exploration", Build: "lockstep", Gen: genC20E1, Run: runC20E1, QuickS: 30, ThoroughS: 480,
-		Rule: "whole-broker variant: the simulated scenarios of C01, C03, C07, C11 and C12 (1-3 brokers, clients, gossip, RPC, fake clock) executed on the statement-instrumented build under seeded preemption (runtime.Gosched at PRNG-chosen statements, one P) with the race detector on, neighbouring client requests handed to the brokers in the same driver turn; violations are race reports whose two accesses are both in wasp code, panics, and hangs (no goroutine running, one waiting for a lock)",
+		Rule: "whole-broker variant: the simulated scenarios of C01, C03, C05, C07, C11 and C12 (1-3 brokers, clients, gossip, RPC, fake clock) executed on the statement-instrumented build under seeded preemption (runtime.Gosched at PRNG-chosen statements, one P) with the race detector on, neighbouring client requests handed to the brokers in the same driver turn; violations are race reports whose two accesses are both in wasp code, panics, and hangs (no goroutine running, one waiting for a lock)",
 		Real: e1Real, Stub: append([]string{"goroutine scheduling inside the broker: Go runtime with one P plus PRNG-chosen runtime.Gosched() at instrumented statements"}, e1Stub...),
 		Assume: []string{"race reports whose innermost frames are in a dependency (vx-labs/commitlog cursor vs writer) are counted by a probe and not reported: they are outside this repository"}})
 	register(&Check{ID: "C04", Level: "exploration", Build: "lockstep", Gen: genLockstep([]int{5, 5, 10}), Run: runLockstep, QuickS: 15, ThoroughS: 200,
